@@ -30,6 +30,7 @@ def run(ctx):
     ctx.each(r19e, ctx, repo)
     ctx.each(r19f, ctx, repo)
     ctx.each(r19g, ctx, repo)
+    ctx.each(r19h, ctx, repo)
 
 
 def _walk_loop(fi):
@@ -311,3 +312,39 @@ def r19g(ctx, repo):
         args = [s for s in body if astq.is_name(s.targets[0], "args")]
         okt = okt and len(args) == 1 and isinstance(args[0].value, ast.List) and [vis.get(ast.unparse(e)) for e in args[0].value.elts] == ["self.visit(%s.left)" % node, "self.visit(%s.right)" % node]
     ctx.check(okt, "R19g", vb, keep[0] if keep else vb.node, "exactly the Div operators are replaced by sdiv(visited left, visited right); other operators keep their visited operands", "visit_BinOp does not replace exactly the `/` operators by sdiv(lhs, rhs) while re-attaching the visited operands to every other operator: some divisions keep Python's `/` (0/0 raises or gives nan) or other operators are turned into divisions", stmt_text="transformer")
+
+
+WHITELIST_IMPL = {"max": "vector_max", "min": "vector_min", "exp": "np.exp", "floor": "np.floor", "pi": "np.pi", "cos": "np.cos", "sin": "np.sin", "sqrt": "np.sqrt", "ln": "np.log", "rand": "np.random.rand", "randn": "np.random.randn", "sdiv": "sdiv"}
+IDENTITY = {"np.minimum": {"np.inf", "float('inf')", "math.inf", "np.Inf", "numpy.inf"}, "np.maximum": {"-np.inf", "float('-inf')", "-math.inf", "-np.Inf", "-float('inf')", "-numpy.inf"}}
+
+
+def r19h(ctx, repo):
+    ctx.rule("R19h", "the whitelisted names mean what the documentation says: each documented name of supported_functions is bound to its documented implementation (max -> vector_max, ln -> np.log ...), and vector_min / vector_max are a plain reduce of np.minimum / np.maximum over their arguments - without an initial value, or with the identity of the operation (+inf / -inf); any other seed value is silently mixed into every result")
+    m = repo.module("function_parser")
+    wl = [s for s in m.tree.body if isinstance(s, ast.Assign) and astq.is_name(s.targets[0], "supported_functions") and isinstance(s.value, ast.Dict)]
+    ctx.require(len(wl) == 1, "R19h: supported_functions dict literal not found")
+    fi = repo.func("function_parser", "parse_function")
+    have = {k.value: ast.unparse(v) for k, v in zip(wl[0].value.keys, wl[0].value.values) if isinstance(k, ast.Constant)}
+    for name, impl in sorted(WHITELIST_IMPL.items()):
+        if name not in have:
+            continue  # a documented name that disappears makes functions fail loudly (rejected), not silently
+        ctx.check(have[name] == impl, "R19h", fi, wl[0], "`%s` is bound to %s" % (name, impl), "the whitelisted name `%s` is bound to `%s`, not to %s: a parameter function using it silently computes something else" % (name, have[name], impl), stmt_text="whitelist:%s" % name)
+    for fname, op in (("vector_min", "np.minimum"), ("vector_max", "np.maximum")):
+        f = repo.func("function_parser", fname)
+        va = f.node.args.vararg.arg if f.node.args.vararg else None
+        rets = [r for r in own_nodes(f.node) if isinstance(r, ast.Return)]
+        ok = len(rets) == 1 and va is not None
+        why = "not a single `return reduce(%s, %s)`" % (op, va)
+        if ok:
+            v = rets[0].value
+            env = {s.targets[0].id: s.value for s in own_nodes(f.node) if isinstance(s, ast.Assign) and len(s.targets) == 1 and isinstance(s.targets[0], ast.Name)}
+            if isinstance(v, ast.Name) and v.id in env:
+                v = env[v.id]
+            ok = isinstance(v, ast.Call) and ast.unparse(v.func) in ("reduce", "functools.reduce") and len(v.args) >= 2 and not v.keywords
+            if ok:
+                ok = ast.unparse(v.args[0]) == op and ast.unparse(v.args[1]) == va
+                why = "reduces `%s` over `%s`" % (ast.unparse(v.args[0]), ast.unparse(v.args[1]))
+                if ok and len(v.args) == 3:
+                    ok = ast.unparse(v.args[2]) in IDENTITY[op]
+                    why = "seeds the reduction with `%s`, which is not the identity of %s" % (ast.unparse(v.args[2]), op)
+        ctx.check(ok, "R19h", f, rets[0] if rets else f.node, "%s = reduce(%s, args) (no seed, or the identity)" % (fname, op), "%s %s: `%s(...)` in a parameter function no longer returns the element-wise %s of exactly its arguments" % (fname, why, fname.split("_")[1], fname.split("_")[1] + "imum"), stmt_text="reduce:%s" % fname)
